@@ -32,7 +32,7 @@ Proof. exact log_key_of_inj. Qed.
 Print Assumptions C02_log_key_injective.
 
 (* ---- the table level: the whole of C02 ---- *)
-From RT Require Import Model.Writer Model.Reader Proofs.TableProofs Proofs.SeekProofs.
+From RT Require Import Model.Writer Model.Reader Proofs.TableProofs Proofs.SeekProofs Proofs.ReadOneProofs.
 
 (* For every table the writer produces -- no index, one or several index
    levels, a multi-block top level, any block size / padding / restart
@@ -69,5 +69,35 @@ Theorem C02_seek_log : forall deflate inflate,
       seek_log inflate r name idx = Ok (map RecLog (seek_logs (log_key_of name idx) logs')).
 Proof. exact table_seek_log. Qed.
 Print Assumptions C02_seek_log.
+
+(* the point lookups of reftable.go (ReadRef / ReadLogAt = seek, take the first record,
+   compare its name): the record carrying the name, resp. the newest entry of the ref at or
+   below the update index -- or nothing *)
+Theorem C02_read_ref : forall deflate inflate,
+  zlib_ok deflate inflate ->
+  (forall x n, (n < length (deflate x))%nat -> inflate (firstn n (deflate x)) = ITrunc) ->
+  (forall x, N.of_nat (length x) < 16777216 -> N.of_nat (length (deflate x)) < 1073741824) ->
+  forall cfg min max refs logs data,
+  cfg_ok cfg -> max < two64 -> min <= max -> refs_ok cfg min max refs -> logs_ok cfg logs ->
+  N.of_nat (length data) < two64 ->
+  write_table deflate cfg min max refs logs = Ok (false, data) ->
+  exists r, rd_open data = Ok r /\
+    forall name, read_ref inflate r name = Ok (find (fun x => bytes_eqb (r_name x) name) refs).
+Proof. exact table_read_ref. Qed.
+Print Assumptions C02_read_ref.
+
+Theorem C02_read_log_at : forall deflate inflate,
+  zlib_ok deflate inflate ->
+  (forall x n, (n < length (deflate x))%nat -> inflate (firstn n (deflate x)) = ITrunc) ->
+  (forall x, N.of_nat (length x) < 16777216 -> N.of_nat (length (deflate x)) < 1073741824) ->
+  forall cfg min max refs logs data logs',
+  cfg_ok cfg -> max < two64 -> min <= max -> refs_ok cfg min max refs -> logs_ok cfg logs ->
+  N.of_nat (length data) < two64 ->
+  write_table deflate cfg min max refs logs = Ok (false, data) ->
+  read_logs cfg logs = Some logs' ->
+  exists r, rd_open data = Ok r /\
+    forall name idx, read_log_at inflate r name idx = Ok (find_log_at name idx logs').
+Proof. exact table_read_log_at. Qed.
+Print Assumptions C02_read_log_at.
 
 Definition C02_nonvacuous := (table_seek_ref_stored, table_seek_log_stored).
